@@ -132,6 +132,9 @@ class C05(Profile):
         kinds = [(k, w if k != 'revoke' else 0.15 * rng.choice([0, 1, 1, 2])) for k, w in kinds]
         nch = rng.choice([1, 1, 2, 3, 4])
         chains = []
+        # sometimes every chain of the run has the same type (in both spec versions, as object and as dict): whatever the library
+        # remembers about a type from one chain then meets the other
+        shared_type = rng.choice(['indicator', 'malware', 'identity', 'campaign', 'relationship', 'report']) if rng.random() < 0.3 else None
         for c in range(nch):
             ver = rng.choice(['2.0', '2.1'])
             form = U.weighted(rng, [('obj', 5), ('dict', 3), ('dict_unreg', 2), ('sco_obj', 1), ('sco_dict', 1)])
@@ -139,7 +142,7 @@ class C05(Profile):
                 ver = '2.1'
                 typ = 'file'
             else:
-                typ = rng.choice(C.versioned_types(ver))
+                typ = shared_type or rng.choice(C.versioned_types(ver))
             minimal, rich = (C.template(ver, typ)[:2] if not form.startswith('sco') else ({}, {}))
             common = C.COMMON_OPT_20 if ver == '2.0' else C.COMMON_OPT_21
             base_s = 1483228800 + rng.randrange(0, 10 ** 8)
